@@ -1,5 +1,5 @@
 (* C04 - lemmas: generic round trip, arity, field types, point shape. *)
-From V Require Import Lib.Base Lib.Cbor Lib.CborParse C04.Model.
+From V Require Import Lib.Base Lib.Cbor Lib.CborParse C04.Model C04.Hand.
 Local Open Scope N_scope.
 
 (* nested induction principle for schemas *)
@@ -21,6 +21,9 @@ Section SInd.
   Hypothesis HA : P SAny.
   Hypothesis HM : forall ind w e, P e -> P (SMapU ind w e).
   Hypothesis HPe : P SPeer.
+  Hypothesis HPo : forall p s, P s -> P (SPost p s).
+  Hypothesis HBL : forall n a b, P a -> P b -> P (SByLen n a b).
+  Hypothesis HAl : forall a b, P a -> P b -> P (SAlt a b).
   Fixpoint schema_ind' (s : schema) : P s :=
     match s with
     | SUInt w => HU w | SBool => HB | SBytes => HBy | SText => HT | SRaw => HR
@@ -30,6 +33,9 @@ Section SInd.
     | SPoint => HP | SOpaque => HO
     | SListI e => HLI e (schema_ind' e) | STagBytes => HTB | SBytesN n => HBN n | STagAny => HTA | SAny => HA
     | SMapU ind w e => HM ind w e (schema_ind' e) | SPeer => HPe
+    | SPost p s' => HPo p s' (schema_ind' s')
+    | SByLen n a b => HBL n a b (schema_ind' a) (schema_ind' b)
+    | SAlt a b => HAl a b (schema_ind' a) (schema_ind' b)
     end.
 End SInd.
 
@@ -190,7 +196,7 @@ Definition point_ok (pt : item -> option value) : Prop :=
 
 Lemma dec_enc_g pt : point_ok pt -> forall s v i, enc_s s v = Some i -> dec_g pt s i = Some v.
 Proof.
-  intros [P0 P2]. induction s as [w| | | | |e IH|fs IH| | |e IH| |n| | |ind w e IH|] using schema_ind'; intros v i E.
+  intros [P0 P2]. induction s as [w| | | | |e IH|fs IH| | |e IH| |n| | |ind w e IH| |p s IH|n a b IHa IHb|a b IHa IHb] using schema_ind'; intros v i E.
   - destruct v; try discriminate. cbn [enc_s] in E. destruct (n <? 2 ^ w) eqn:L; [|discriminate].
     injection E as <-. cbn [dec_g strip is_nil dec_uint]. unfold fit. rewrite L. reflexivity.
   - destruct v; try discriminate. injection E as <-. destruct b; reflexivity.
@@ -261,6 +267,23 @@ Proof.
       destruct (port <? 2 ^ 16) eqn:Pt; [|discriminate]. cbn [andb] in E.
       injection E as <-. cbn [dec_g dec_peer N.eqb Pos.eqb]. unfold dec_u. cbn [strip is_nil dec_uint]. unfold fit.
       rewrite A1, A2, A3, A4, Pt. reflexivity.
+  - (* SPost *)
+    assert (E' : match post_enc p v with Some v' => enc_s s v' | None => None end = Some i) by (destruct v; exact E).
+    destruct (post_enc p v) as [v'|] eqn:PE; [|discriminate].
+    cbn [dec_g]. rewrite (IH _ _ E'). apply post_law. exact PE.
+  - (* SByLen *)
+    assert (E' : match enc_s a v with
+                 | Some i => if arr_len_is n i then Some i else None
+                 | None => match enc_s b v with Some i => if arr_len_isnt n i then Some i else None | None => None end
+                 end = Some i) by (destruct v; exact E).
+    destruct (enc_s a v) as [ia|] eqn:Ea.
+    + destruct (arr_len_is n ia) eqn:L; [|discriminate]. injection E' as <-.
+      destruct ia; try discriminate. cbn [arr_len_is] in L. cbn [dec_g strip]. rewrite L. apply IHa. exact Ea.
+    + destruct (enc_s b v) as [ib|] eqn:Eb; [|discriminate]. destruct (arr_len_isnt n ib) eqn:L; [|discriminate]. injection E' as <-.
+      destruct ib; try discriminate. cbn [arr_len_isnt] in L. apply negb_true_iff in L. cbn [dec_g strip]. rewrite L. apply IHb. exact Eb.
+  - (* SAlt *)
+    assert (E' : enc_s a v = Some i) by (destruct v; exact E).
+    cbn [dec_g]. rewrite (IHa _ _ E'). reflexivity.
 Qed.
 
 Lemma point_ok_fixed : point_ok dec_point.
